@@ -158,8 +158,51 @@ static void run_power(Json& js, vh::Rng& rng, long budget) {
     }
 }
 
+// the short forms stand for the full form with a Hamming window, winlen/2 overlap and the next power of two as nfft
+static bool same_res(const WelchResult& a, const WelchResult& b) {
+    bool ok = a.pxx.size() == b.pxx.size() && a.f.size() == b.f.size();
+    for (int i = 0; ok && i < a.pxx.size(); ++i) {
+        ok = a.pxx[i] == b.pxx[i] && a.f[i] == b.f[i];
+    }
+    return ok;
+}
+static void overloads(Json& js, vh::Rng& rng) {
+    const int winlen = (int)rng.range(3, 200), N = winlen + (int)rng.range(0, 600);
+    const int nfft = 1 << nextpow2(winlen), nf2 = nfft << (int)rng.range(0, 1);
+    const int nov = (int)rng.range(0, winlen - 1);
+    arr_real x(N), y(N);
+    arr_cmplx z(N);
+    for (int i = 0; i < N; ++i) {
+        x[i] = rng.gauss(), y[i] = 0.5 * x[i] + rng.gauss(), z[i] = cmplx_t(rng.gauss(), rng.gauss());
+    }
+    const arr_real ham = window::hamming(winlen), win = window::blackman(winlen);
+    bool ok = true;
+    for (SpectrumType st : {SpectrumType::Psd, SpectrumType::Power}) {
+        ok = ok && same_res(welch(x, winlen, st), welch(x, ham, winlen / 2, nfft, st));
+        ok = ok && same_res(welch(x, win, st), welch(x, win, winlen / 2, nfft, st));
+        ok = ok && same_res(welch(x, winlen, nov, nf2, st), welch(x, ham, nov, nf2, st));
+        ok = ok && same_res(welch(z, winlen, st), welch(z, ham, winlen / 2, nfft, st));
+        ok = ok && same_res(welch(z, win, st), welch(z, win, winlen / 2, nfft, st));
+        ok = ok && same_res(welch(z, winlen, nov, nf2, st), welch(z, ham, nov, nf2, st));
+    }
+    ok = ok && same_res(welch(x, winlen), welch(x, ham, winlen / 2, nfft, SpectrumType::Psd));   // Psd is the default
+    auto samev = [](const arr_real& a, const arr_real& b) {
+        bool e = a.size() == b.size();
+        for (int i = 0; e && i < a.size(); ++i) {
+            e = a[i] == b[i] || (a[i] != a[i] && b[i] != b[i]);
+        }
+        return e;
+    };
+    ok = ok && samev(mscohere(x, y, winlen), mscohere(x, y, ham, winlen / 2, nfft));
+    ok = ok && samev(mscohere(x, y, win), mscohere(x, y, win, winlen / 2, nfft));
+    ok = ok && samev(mscohere(x, y, winlen, nov, nf2), mscohere(x, y, ham, nov, nf2));
+    js.begin("Resid").str("clause", "C13.overloads").boolean("cplx", false).num("nfft", nfft).num("winlen", winlen)
+      .num("err_milli", ok ? 0 : 1000000).end();
+}
+
 static void run_cohere(Json& js, vh::Rng& rng, long budget) {
     for (long t = 0; t < budget; ++t) {
+        overloads(js, rng);
         const int nfft = 1 << (int)rng.range(3, 10);
         const int winlen = (int)rng.range(std::max(3, nfft / 4), nfft);
         const int noverlap = (int)rng.range(0, winlen - 1);
